@@ -316,3 +316,41 @@ def s_attr_constant_is_a_snapshot(_ctx):
 SCENARIOS.append(Scenario("C14.converter.attr_snapshot", s_attr_constant_is_a_snapshot,
                           [("onnxscript/_internal/converter.py", "Converter._translate_attr"), ("onnxscript/_internal/converter.py", "Converter._emit_const")], kind="evaluation",
                           trusted=["ir.tensor / ir.convenience.convert_attribute (onnx_ir)"]))
+
+
+def s_eager_globals(_ctx):
+    """Eager calls after decoration: the Python function that eager mode executes (OnnxFunction.function, called by
+    BaseEvaluator.eval_function) must read script-time constants from what the decorator saw.  Ground obligation on the
+    real decorator: the executed function's globals must not be the live module dictionary."""
+    import sys
+    import types
+    from contracts.c17_opsets import Agg
+    agg = Agg()
+    cl = "C14: 'Script-time constants are fixed when the decorator runs: mutating globals afterwards changes neither the generated protos nor later calls'"
+    src = ("from onnxscript import script, FLOAT\nfrom onnxscript import opset18 as op\nALPHA = 2.0\n"
+           "@script(default_opset=op)\ndef f(x: FLOAT[2]) -> FLOAT[2]:\n    return x * ALPHA\n")
+    import os
+    import tempfile
+    import importlib.util
+    d = tempfile.mkdtemp(prefix="pyvc_eager_")
+    path = os.path.join(d, "eager_glob_case.py")
+    open(path, "w").write(src)
+    try:
+        spec = importlib.util.spec_from_file_location("eager_glob_case", path)
+        mod = importlib.util.module_from_spec(spec)
+        sys.modules["eager_glob_case"] = mod
+        spec.loader.exec_module(mod)
+        fn = mod.f.function
+        live = fn.__globals__ is mod.__dict__
+        agg.ob("C14.eager.executed_function_reads_globals_from_a_decoration_time_snapshot", not live,
+               "the function eager mode calls (OnnxFunction.function) has __globals__ IS the module dictionary: rebinding ALPHA after "
+               "decoration changes later eager calls while the proto keeps the old value", cl, case="module global")
+    finally:
+        sys.modules.pop("eager_glob_case", None)
+        import shutil
+        shutil.rmtree(d, ignore_errors=True)
+    return {"obligations": agg.obs, "paths": 1, "covered": ["eager_globals"], "notes": [], "functions": []}
+
+
+SCENARIOS.append(Scenario("C14.eager.globals", s_eager_globals, [("onnxscript/_internal/main.py", "script"), ("onnxscript/_internal/main.py", "script.transform")],
+                          kind="evaluation"))
